@@ -659,12 +659,14 @@ class Run:
         if op == "=" and len(args) == 2:
             v = self.ev(args[1], fr)
             lv = self.lvalue(args[0], fr)
+            if lv[0] == "tmp":
+                self.element_write(args[0], v, fr)
             self._save(lv, v)
             return v
         if op == "[]" and len(args) == 2:
             return self.X.index_term(self.ev(args[0], fr), self.ev(args[1], fr))
-        if op in ("<<", ">>") and len(args) == 2 and n.get("mrec"):
-            # member operator<< / >> : a stream operation mutating its left operand
+        if op in ("<<", ">>") and len(args) == 2 and n.get("mrec") and not (n.get("cid") or "").startswith("_ZNK"):
+            # non-const member operator<< / >> : a stream operation mutating its left operand (a const one is a shift: a value)
             lv = self.lvalue(args[0], fr)
             base = self._load(lv)
             t = self.ev(args[1], fr) if op == "<<" else self.locterm(args[1], fr)
@@ -706,6 +708,22 @@ class Run:
         if op == "()":
             self.events.append(Ev("call", "()", ts, n, fr.func))
         return ("ap", "op" + op,) + tuple(ts)
+
+    def element_write(self, target, v, fr):
+        """c[i] = v on a class-type container held in a local / field: the container's term becomes mut:[]=(old, i, v)"""
+        t = target
+        while t is not None and t.get("k") in ("cast", "opaque"):
+            t = t.get("e")
+        if t is None or not (t.get("k") == "opcall" and t.get("op") == "[]" and len(t.get("args", [])) == 2):
+            return
+        try:
+            clv = self.lvalue(t["args"][0], fr)
+        except Unsupported:
+            return
+        if clv[0] not in ("cell", "hp", "hpv"):
+            return
+        old = self._load(clv)
+        self._save(clv, ("ap", "mut:[]=", old, self.ev(t["args"][1], fr), v))
 
     def inline(self, fn, n, args, ts, fr, this):
         self.nframe += 1
@@ -945,7 +963,7 @@ class Run:
                 for t_ in tgt:
                     while t_ is not None and t_.get("k") in ("cast",):
                         t_ = t_["e"]
-                    while t_ is not None and t_.get("k") == "opcall" and t_.get("op") in ("<<", ">>") and t_.get("args"):
+                    while t_ is not None and t_.get("k") == "opcall" and t_.get("op") in ("<<", ">>", "[]") and t_.get("args"):
                         t_ = t_["args"][0]
                     if t_ is not None and t_.get("k") == "ref" and t_.get("dk") in ("local", "parm"):
                         c_ = snap[9].get(t_.get("d") or t_.get("n"))
